@@ -54,11 +54,19 @@ class Gen:
         self.build = True          # construct the Python objects (False: descriptors only, for wire images)
         self.flag_mode = "mp"      # "mp": M/P overrides; "all": any flag byte consistent with the V bit
         self.override = 0.2
+        self.mutate_grouped = False          # apply container operations to built Grouped AVPs (C01)
+        self.big = 0.002                    # probability of an AVP whose length crosses the 2^16 boundary
         self.generic_unknown_only = False   # generic AVPs only with codes no dictionary class uses
 
     # ---------------------------------------------------------------- values
     def rbytes(self, n):
+        if n > 4096:
+            return self.rng.randbytes(n)
         return bytes(self.rng.randrange(256) for _ in range(n))
+
+    def big_len(self):
+        """data lengths that put the AVP Length field on either side of 2^16 (and well beyond)"""
+        return self.rng.choice([65519, 65520, 65521, 65523, 65524, 65525, 65527, 65528, 65529, 65533, 65536, 65537, 70001, 131073])
 
     def rstr(self):
         r = self.rng
@@ -71,6 +79,9 @@ class Gen:
         """in-domain (python value, descriptor value tokens) for a dictionary class row"""
         r, k = self.rng, row["kind"]
         if k in ("OctetString", "UTF8String", "DiameterIdentity"):
+            if r.random() < self.big:
+                b = self.rbytes(self.big_len())
+                return b, ["B", b.hex()]
             if r.random() < 0.5:
                 s = self.rstr()
                 return s, ["S", ",".join(str(ord(c)) for c in s) or "-"]
@@ -166,6 +177,8 @@ class Gen:
             code = r.choice([0, 999999, 2 ** 32 - 1, 77777])
         flags = (0x80 if vendor is not None else 0) | r.choice([0, 0x20, 0x40, 0x60, 0x1f & r.randrange(256)])
         n = r.choice([0, 1, 2, 3, 4, 5, 6, 7, 8, 9, 15, 16, 17, 40])
+        if r.random() < self.big:
+            n = self.big_len()
         data = self.rbytes(n)
         # the generic constructor's conversions: b"" / None stay, other bytes as is
         if self.flag_mode == "all":
@@ -188,17 +201,43 @@ class Gen:
             if r.random() < 0.3 and opts:
                 members.append(r.choice(opts))     # a repeated member
         r.shuffle(members)
-        kids, ktoks = [], []
+        pairs = []                                   # (member object, its descriptor tokens)
         for m in members:
-            o, t = self.tree(depth - 1, m.__name__)
-            kids.append(o)
-            ktoks += t
+            pairs.append(self.tree(depth - 1, m.__name__))
         if depth > 0 and r.random() < 0.25:
-            o, t = self.generic()
-            kids.append(o)
-            ktoks += t
+            pairs.append(self.generic())
+        kids = [p[0] for p in pairs]
         bad = [k for k in kids if isinstance(k, Failed)]
         obj = (bad[0] if bad else construct(lambda: cls(kids))) if self.build else None
+        # container operations on the Grouped AVP itself (public API): pop / append / extend / avps setter
+        if self.build and self.mutate_grouped and obj is not None and not isinstance(obj, Failed) and r.random() < 0.3:
+            for _ in range(r.choice([1, 2, 3])):
+                op = r.choice(["pop", "pop", "append", "extend", "setavps"])
+                mand_codes = {m.code for m in cls.mandatory.values()}
+                keys = [k for k, v in obj.__dict__.items() if "_avp" in k and k != "_avps" and v.code not in mand_codes]
+                if op == "pop" and keys:
+                    key = r.choice(keys)
+                    target = obj.__dict__[key]
+                    obj.pop(key)
+                    pairs = [p for p in pairs if p[0] is not target]
+                    self.hit("grouped-op:pop", "grouped-op")
+                elif op in ("append", "extend"):
+                    extra = [self.tree(max(depth - 1, 0), r.choice(members).__name__) if members and r.random() < 0.7 else self.generic()
+                             for _ in range(1 if op == "append" else 2)]
+                    if any(isinstance(e[0], Failed) for e in extra):
+                        continue
+                    if op == "append":
+                        obj.append(extra[0][0])
+                    else:
+                        obj.extend([e[0] for e in extra])
+                    pairs += extra
+                    self.hit("grouped-op:" + op, "grouped-op")
+                elif op == "setavps" and pairs:
+                    r.shuffle(pairs)
+                    obj.avps = [p[0] for p in pairs]
+                    self.hit("grouped-op:setavps", "grouped-op")
+        kids = [p[0] for p in pairs]
+        ktoks = [t for p in pairs for t in p[1]]
         fl = "-"
         if r.random() < self.override and not isinstance(obj, Failed):
             f = self.m_p_flags(row["flags"])
